@@ -62,3 +62,10 @@ Definition containsZ (s : list Z) (c : Z) : bool := existsb (fun x => x =? c) s.
     than n bytes are left (read_exact's UnexpectedEof) *)
 Definition take_exact (n : Z) (l : list Z) : option (list Z * list Z) :=
   if lenZ l <? n then None else Some (firstn (Z.to_nat n) l, skipn (Z.to_nat n) l).
+
+(** `s.find(c)` for a single char: index of the first occurrence *)
+Fixpoint findZ (s : list Z) (c : Z) : option Z :=
+  match s with
+  | [] => None
+  | x :: r => if x =? c then Some 0 else match findZ r c with Some i => Some (i + 1) | None => None end
+  end.
